@@ -182,9 +182,20 @@ let op_validate apex cls wide recs_s =
     | None -> "err InvalidRdata" in
   model ^ " | " ^ spec
 
+(* ---- RdataSetOwned at the octet-buffer level: B <class> <type> <rdata,rdata,...>
+   model: RdataSetOwned::from_iter = insert every RDATA into an empty buffer, then iterate;
+   spec: the RDATAs in order of first appearance, later equal ones dropped *)
+let op_rdset cls ty rds_s =
+  let c = n_of_int (int_of_string cls) and t = n_of_int (int_of_string ty) in
+  let rds = Stdlib.List.map unhex (split ',' rds_s) in
+  let buf = Stdlib.List.fold_left (fun b rd -> RdataBuf.buf_insert req c t b rd) [] rds in
+  let show l = if l = [] then "none" else String.concat "+" (Stdlib.List.map hex l) in
+  "ok " ^ show (RdataBuf.buf_rdatas buf) ^ " | ok " ^ show (S.dedup_first req c rds t)
+
 let () = run_lines (fun f ->
   match f with
   | [ "L"; apex; cls; recs; qn; qtys ] -> op_lookup apex cls recs qn qtys
   | [ "H"; apex; cls; recs ] -> op_history apex cls recs
   | [ "V"; apex; cls; wide; recs ] -> op_validate apex cls wide recs
+  | [ "B"; cls; ty; rds ] -> op_rdset cls ty rds
   | _ -> failwith "bad case line")
